@@ -1,6 +1,9 @@
 # (class id, regex on violation key, what) - reviewed classes of genuine cc6502 defects (see DESIGN.md "Known findings")
 W16 = r'(ha|wa|w2|wb)'
 CLASSES = {
+ 'C09': [
+  ('L01-char-const-quote', r'^lit\.rejected\.char(-stmt)?/"$', "the character constant '\"' is rejected with 'Unterminated string': the preprocessor's string scanner does not know character constants"),
+ ],
  'C10': [
   ('T01-prec-eq-rel', r'^calculator\.table\.(eq|neq)\.(gt|gte|lt|lte)$', "constant expressions: == and != share one precedence level with < > <= >=, so `a == b > c` is grouped as `(a == b) > c` (C: `a == (b > c)`)"),
   ('T02-ternary-sentinel', r'^parse_calc\.ternary\.sentinel$', "constant `c ? a : b` uses the value 0x7eaddead as an in-band 'condition was false' marker: `1 ? 2125323949 : x` yields x"),
